@@ -42,6 +42,7 @@ CONSTANTS Lmtps,       \* subset of BOOLEAN: protocols explored
           OptSets,     \* names of MAIL option sets (see OptOf)
           TlsModes,    \* subset of BOOLEAN: Connect with starttls required
           MaxRcpt, MaxTxn, MaxConn, MaxFaults, MaxAgain,
+          FaultAfter,  \* non-ok replies only from reply slot number FaultAfter + 1 on (steers -simulate)
           Devs, Gen
 
 VARIABLES cfg, cl, w, tp, pc, cur, ip, out, res, perr, dsts, nf, lateUsed, devs, obs, hist
@@ -141,7 +142,8 @@ React(S, x) ==
          IF x.k = "pos"
          THEN IF cfg.cert = "valid" THEN Send([S EXCEPT !.cl.tls = TRUE], Cmd(HelloVerb(cur.a.lmtp)), "hello")
               ELSE Done([CloseConn(S) EXCEPT !.alive = FALSE], Err({"unspec"}, 0))
-         ELSE [Send(S, Cmd("QUIT"), "cquit") EXCEPT !.perr = ErrOf(x)]
+         ELSE [Send(S, Cmd("QUIT"), "cquit") EXCEPT      \* TLSError: the reply is handed on without the 552 -> 452 rewrite
+                 !.perr = IF x.k = "neg" /\ x.r = "p552" THEN Err({"perm"}, x.id) ELSE ErrOf(x)]
     [] S.ip = "cquit" -> Done(CloseConn(S), S.perr)
     [] S.ip \in {"mail", "rset", "noop"} ->
          IF x.k = "pos"
@@ -200,6 +202,10 @@ Settle(S, st) ==
   IF S.snd = NoCmd THEN [S |-> S, st |-> st]
   ELSE IF S.snd.verb = "DOT"
        THEN LET rd == ReadHead(st, S.ip) IN Settle(React([S EXCEPT !.snd = NoCmd], rd.x), rd.st)
+  ELSE IF S.cl.copen /\ st.alive /\ S.alive /\ S.snd.verb \notin {"CONTENT", "GREET"} /\ obs.ph = "data"
+       (* the next hop is still collecting a message (its 354 came too late): what is sent now is *)
+       (* message content to it and gets no answer; the client reads what is in the stream        *)
+       THEN LET rd == ReadHead(st, S.ip) IN Settle(React([S EXCEPT !.snd = NoCmd], rd.x), rd.st)
   ELSE IF S.cl.copen /\ st.alive /\ S.alive THEN [S |-> S, st |-> st]
   ELSE Settle(React([S EXCEPT !.snd = NoCmd], [k |-> "eof", id |-> 0, r |-> ""]), st)
 
@@ -235,8 +241,9 @@ CallOK(c, a) ==
                         /\ \E b \in {"ok", "fail"} : a = Args([body |-> b]) /\ (b = "fail" => nf < MaxFaults)
     [] c = "Reset"   -> /\ tp.s \in {"txn", "sentok"} /\ ~cfg.lmtp /\ a = NoArgs
     [] c = "Noop"    -> /\ a = NoArgs
+                        /\ tp.again < MaxAgain
                         /\ \/ tp.s = "idle"
-                           \/ tp.s = "new" /\ tp.nclose >= 1 /\ tp.again < MaxAgain
+                           \/ tp.s = "new" /\ tp.nclose >= 1
     [] c = "Close"   -> /\ a = NoArgs
                         /\ \/ tp.s \in {"idle", "txn", "sentok", "sent", "must"}
                            \/ tp.s = "new" /\ tp.nclose >= 1 /\ tp.again < MaxAgain
@@ -252,7 +259,7 @@ Call(c, a) ==
   /\ hist' = H([c |-> c, a |-> a, rs |-> <<>>])
   /\ lateUsed' = (IF c = "Connect" THEN FALSE ELSE lateUsed)
   /\ nf' = IF (c = "Connect" /\ a.dial = "fail") \/ (c \in {"Data", "LData"} /\ a.body = "fail") THEN nf + 1 ELSE nf
-  /\ tp' = IF tp.s = "new" /\ c # "Connect" THEN [tp EXCEPT !.again = @ + 1] ELSE tp
+  /\ tp' = IF (tp.s = "new" /\ c # "Connect") \/ c = "Noop" THEN [tp EXCEPT !.again = @ + 1] ELSE tp
   /\ UNCHANGED cfg
   /\ LET S0 == [St0 EXCEPT !.dsts = <<>>, !.perr = NoRes]
          wc == [w EXCEPT !.cn = @ + 1] IN
@@ -292,12 +299,12 @@ Call(c, a) ==
 
 (* ---- the next hop ------------------------------------------------------------------- *)
 (* reply kinds the environment may choose for a slot *)
-Choices(verb) ==
+SlotChoices(verb) ==
   LET base == Replies \cup {"ok"}
       k1 == IF verb \in {"EHLO", "LHLO", "HELO"} THEN base \ {"okm", "extra"} ELSE base \ {"e500", "e502", "extra"}
       k2 == IF verb = "DOT" /\ cfg.lmtp /\ Len(SlotsOf(obs, {"DOT"})) + 1 = w.ndot THEN k1 \cup (Replies \cap {"extra"}) ELSE k1
       k3 == IF lateUsed THEN k2 \ (LateK \cup {"drop", "garb"}) ELSE k2
-  IN {r \in k3 : r = "ok" \/ nf < MaxFaults}
+  IN {r \in k3 : r = "ok" \/ (nf < MaxFaults /\ w.nid >= FaultAfter)}
 
 InOrder(verb) ==
   CASE verb = "MAIL" -> obs.ph = "ready"
@@ -320,7 +327,7 @@ Answer(verb, id, r, closes) ==
   IN Install(React([St0 EXCEPT !.alive = al], rd.x), [w EXCEPT !.nid = id, !.stream = rd.st.stream, !.alive = al])
 
 SrvGreet(id, r) ==
-  /\ pc = "srv" /\ out.verb = "GREET" /\ id = w.nid + 1 /\ r \in Choices("GREET")
+  /\ pc = "srv" /\ out.verb = "GREET" /\ id = w.nid + 1 /\ r \in SlotChoices("GREET")
   /\ obs' = ObsGreet(obs, id, r)
   /\ Answer("GREET", id, r, FALSE)
   /\ Budget(r) /\ hist' = HR(r)
@@ -329,7 +336,7 @@ SrvGreet(id, r) ==
 SrvCmd(verb, par, ak, an, id, r, tls) ==
   /\ pc = "srv" /\ out.verb \notin {"GREET", "CONTENT", "DOT"}
   /\ verb = out.verb /\ par = out.par /\ ak = out.ak /\ an = out.an /\ tls = cl.tls /\ id = w.nid + 1
-  /\ IF InOrder(verb) THEN r \in Choices(verb) ELSE r = "seq"
+  /\ IF InOrder(verb) THEN r \in SlotChoices(verb) ELSE r = "seq"
   /\ obs' = ObsCmd(obs, [verb |-> verb, par |-> par, ak |-> ak, an |-> an, id |-> id, r |-> r, tls |-> tls])
   /\ Answer(verb, id, r, verb = "QUIT" /\ r \in SrvPos)      \* the next hop closes after its 221
   /\ IF InOrder(verb) THEN Budget(r) /\ hist' = HR(r) ELSE UNCHANGED <<nf, lateUsed, hist>>
@@ -345,7 +352,7 @@ SrvContent(full) ==
 (* the next hop answers every slot after the final dot at once (one per recipient it   *)
 (* accepted for LMTP); the client then reads as many replies as it expects             *)
 SrvDot(i, id, r) ==
-  /\ pc = "dot" /\ i = Len(SlotsOf(obs, {"DOT"})) + 1 /\ i <= w.ndot /\ id = w.nid + 1 /\ r \in Choices("DOT")
+  /\ pc = "dot" /\ i = Len(SlotsOf(obs, {"DOT"})) + 1 /\ i <= w.ndot /\ id = w.nid + 1 /\ r \in SlotChoices("DOT")
   /\ obs' = ObsDot(IF r = "extra" THEN ObsDot(obs, i, id, r) ELSE obs, IF r = "extra" THEN i + 1 ELSE i,
                    IF r = "extra" THEN id + 1 ELSE id, IF r = "extra" THEN "ok" ELSE r)
   /\ LET s1 == Append(w.stream, Entry("DOT", id, r))
@@ -390,7 +397,7 @@ Ret(r) ==
 (* what the design predicts for the return of the call in progress (model checking) *)
 Predicted ==
   LET dots == SlotsOf(obs, {"DOT"}) IN
-  { [cls |-> c, id |-> IF c = "ok" THEN 0 ELSE res.id,
+  { [cls |-> c, code |-> 0, id |-> IF c = "ok" THEN 0 ELSE res.id,
      sts |-> [i \in 1..Len(res.sts) |-> [ak |-> IF i <= Len(obs.accw) THEN obs.accw[i].ak ELSE "", an |-> IF i <= Len(obs.accw) THEN obs.accw[i].an ELSE 0,
                                           cls |-> res.sts[i].cls, id |-> res.sts[i].id]],
      panic |-> res.panic, hung |-> FALSE, dur |-> 0, connected |-> cl.cli, open |-> cl.copen] :
@@ -400,7 +407,7 @@ Finish ==
   /\ pc = "idle" /\ tp.s = "new" /\ tp.nconn >= 1
   /\ pc' = "fin"
   /\ obs' = ObsEnd(obs, cl.copen)
-  /\ IF Gen THEN PrintT(<<"BEH", ToJson([cfg |-> [lmtp |-> cfg.lmtp, ext |-> ExtOf(cfg.ext), cert |-> cfg.cert], steps |-> hist])>>)
+  /\ IF Gen THEN PrintT(<<"BEH", ToJson([cfg |-> [lmtp |-> cfg.lmtp, ext |-> ExtOf(cfg.ext), extn |-> cfg.ext, cert |-> cfg.cert], steps |-> hist])>>)
      ELSE TRUE
   /\ UNCHANGED <<cfg, cl, w, tp, cur, ip, out, res, perr, dsts, nf, lateUsed, devs, hist>>
 
@@ -415,11 +422,11 @@ Calls == {"Connect", "Mail", "Rcpt", "Data", "LData", "Reset", "Noop", "Close", 
 
 Next ==
   \/ (pc = "idle" /\ \E c \in Calls, a \in CallArgs : Call(c, a))
-  \/ (pc = "srv" /\ out.verb = "GREET" /\ \E r \in Choices("GREET") : SrvGreet(w.nid + 1, r))
+  \/ (pc = "srv" /\ out.verb = "GREET" /\ \E r \in SlotChoices("GREET") : SrvGreet(w.nid + 1, r))
   \/ (pc = "srv" /\ out.verb \notin {"GREET", "CONTENT", "DOT"} /\
-        \E r \in Choices(out.verb) \cup {"seq"} : SrvCmd(out.verb, out.par, out.ak, out.an, w.nid + 1, r, cl.tls))
+        \E r \in SlotChoices(out.verb) \cup {"seq"} : SrvCmd(out.verb, out.par, out.ak, out.an, w.nid + 1, r, cl.tls))
   \/ SrvContent(TRUE)
-  \/ (pc = "dot" /\ \E r \in Choices("DOT") : SrvDot(Len(SlotsOf(obs, {"DOT"})) + 1, w.nid + 1, r))
+  \/ (pc = "dot" /\ \E r \in SlotChoices("DOT") : SrvDot(Len(SlotsOf(obs, {"DOT"})) + 1, w.nid + 1, r))
   \/ (pc = "ret" /\ \E r \in Predicted : Ret(r))
   \/ Finish
   \/ (pc = "fin" /\ ~Gen /\ UNCHANGED vars)
